@@ -6,6 +6,7 @@ Sub-checks
   fresh_process  : small classic and JAX VI runs repeated in fresh interpreters (byte identity)
   jax_strategies : the same JAX VI run under residual_map/kl_map in {vmap, lmap, smap} x jit flags
 """
+import json
 import os
 import shutil
 import tempfile
@@ -101,6 +102,29 @@ def _exec(R, items, trace, path, base_depth):
                 R.pop_sseq()
             trace.append((path + (idx, "pp"), sub))
             require(inner_reset or R.current_rng() is rng_before, "generator_not_restored_after_pop", "")
+        elif kind == "rectx":
+            # ONE Context object entered several times: every activation must start the stream of its seed afresh
+            # ("draws inside a context depend only on its seed")
+            _, seed, bodies = it
+            c = R.Context(seed)
+            got = []
+            for body in bodies:
+                rng_before = R.current_rng()
+                depth_before = len(R._sseq)
+                sub = []
+                with c:
+                    _exec(R, body, sub, path + (idx,), base_depth)
+                require(R.current_rng() is rng_before and len(R._sseq) == depth_before, "generator_not_restored",
+                        "after leaving a re-entered context")
+                got.append([b_ for _, b_ in sub if isinstance(b_, bytes)])
+            for body, g in zip(bodies, got):
+                alone = []
+                with R.Context(seed):
+                    _exec(R, body, alone, (), 0)
+                require(g == [b_ for _, b_ in alone if isinstance(b_, bytes)], "reentered_context_depends_on_history",
+                        "draws inside a Context object that is entered again differ from those of a fresh "
+                        "Context with the same seed")
+            trace.append((path + (idx, "re"), []))
         elif kind == "state":
             # getState / draws / setState / same draws again
             _, body = it
@@ -182,7 +206,8 @@ def check_rng(rec):
     nboom = sum(1 for c in ctxs if c[3] is not None)
     maxd = _depth(items)
     return dict(nontrivial=maxd >= 2 and nboom >= 1,
-                classes=[f"depth_{min(maxd, 4)}", f"exc_exits_{min(nboom, 3)}", f"ctxs_{min(len(ctxs), 5)}"])
+                classes=[f"depth_{min(maxd, 4)}", f"exc_exits_{min(nboom, 3)}", f"ctxs_{min(len(ctxs), 5)}"]
+                + (["reentered_context"] if '"rectx"' in json.dumps(items) else []))
 
 
 def _depth(items):
@@ -194,6 +219,8 @@ def _depth(items):
             d = max(d, 1 + _depth(it[3]))
         elif it[0] == "state":
             d = max(d, _depth(it[1]))
+        elif it[0] == "rectx":
+            d = max(d, 1)
     return d
 
 
@@ -213,7 +240,9 @@ def _items(depth):
     pp = st.tuples(st.just("pushpop"), st.sampled_from(["seed", "spawn"]), st.integers(0, 3), sub).map(list)
     pp = pp.map(lambda t: [t[0], t[1], t[2] if t[1] == "spawn" else 1000 + t[2], t[3]])
     state = st.tuples(st.just("state"), st.lists(draw, min_size=1, max_size=2)).map(list)
-    return st.lists(st.one_of(draw, draw, ctx(), ctx(), pp, state), min_size=1, max_size=4)
+    leaf_body = st.lists(draw, min_size=1, max_size=3)
+    rectx = st.tuples(st.just("rectx"), seed, st.lists(leaf_body, min_size=2, max_size=3)).map(list)
+    return st.lists(st.one_of(draw, draw, ctx(), ctx(), pp, state, rectx), min_size=1, max_size=4)
 
 
 def rng_recipes(tier):
